@@ -10,6 +10,11 @@ ASSUMPTIONS = ['simplicity-lang finalize_pruned = finalize_unpruned + RedeemNode
 
 
 def check(ctx):
+    from . import c07, layout
+    c07.r_shared_callee(ctx)
+    layout.r_btree(ctx, 'R18.5')
+    layout.r_partition(ctx, 'R18.6')
+    c07.r_value_to_structural(ctx, 'R18.7')
     satisfy.r_finalizers(ctx, 'R18.1')
     satisfy.r_consistency_gate(ctx, 'R18.2')
     satisfy.r_single_caller(ctx, 'R18.3', 'named::to_witness_node', {satisfy.SAT})
